@@ -144,7 +144,7 @@ T_COLS = {
 CONTAINERS = [("nested", "nested", "var"), ("nested", "nested", "dim"),
               ("nested", "numpy", "var"), ("nested", "numpy", "dim"),
               ("numpy", "nested", "var"), ("numpy", "nested", "dim"),
-              ("numpy", "numpy", "var")]
+              ("numpy", "numpy", "var"), ("nested", "numpyF", "var"), ("numpyF", "numpyF", "var")]
 PERMS = [list(p) for p in itertools.permutations(range(4))]
 SUBS = [[i] for i in range(4)] + [list(c) for c in itertools.combinations(range(4), 2)]
 
@@ -181,6 +181,12 @@ def gen_cases(tier, seed):
                                    L=16 if (name == "MUSE" and tier == "quick") else L,
                                    fitc=fitc, appc=appc, naming=naming, group=group, rs=0,
                                    yseries=bool((i + seed) % 2))
+                    if name in ("Padder", "Padder30", "Trunc", "Trunc5_15", "Interp"):
+                        # panels of unequal-length series (nested frames only)
+                        i += 1
+                        yield dict(kind=kind, est=name, cols=nc, opt=opt, fam=fam, aset=aset, L=L,
+                                   fitc="nested", appc="nested", naming="var", group=group, rs=0,
+                                   yseries=False, uneq=True)
 
 
 # --------------------------------------------------------------------------- running
@@ -237,6 +243,12 @@ def run_case(case):
     else:
         Xa, _ = P.apply_panel(4, 2, nc, Lc, fam)
 
+    if case.get("uneq"):
+        # the shortest series of all is in the fit panel only; every apply instance has its own length
+        cut_fit = [0, 3, 1, 9, 2, 5, 0, 4, 6, 1, 7, 2]
+        cut_app = [0, 5, 2, 7]
+        X = [[col[:len(col) - cut_fit[i % len(cut_fit)]] for col in x] for i, x in enumerate(X)]
+        Xa = [[col[:len(col) - cut_app[i % 4]] for col in x] for i, x in enumerate(Xa)]
     if case["est"] == "Plateau":
         # plateaus of exactly 0.0 so that the finder has something instance specific to find
         X = [[[max(v, 0.0) for v in col] for col in x] for x in X]
